@@ -1972,9 +1972,11 @@ def tag_fn(ctx: "Wtp", token: str) -> None:
         close_begline_lists(ctx)
 
     # Try to parse it as a start tag
+    # (Keep the attribute part in sync with token_list below.)
     m = re.match(
-        r"""<([-a-zA-Z0-9]+)\s*((\b[-a-zA-Z0-9:_.]+(\s*=\s*("[^"]*"|"""
-        r"""'[^']*'|[^ \t\n"'`=<>]*))?\s*)*)/?>""",
+        r"""<([-a-zA-Z0-9]+)\s*((\b[-a-zA-Z0-9:_.]+(?![-a-zA-Z0-9:_.])"""
+        r"""(\s*=\s*(?!\s)("[^"]*"|'[^']*'|"""
+        r"""[^\s"'`<>]*(?![^\s"'`<>])))?\s*)*)/?>""",
         token,
     )
     if m is not None:
@@ -2194,8 +2196,14 @@ token_list: list[str] = [
     r"[ \t]+\n*",
     r":",  # sometimes special when not beginning of line
     r"<<[-a-zA-Z0-9/]*>>",
-    r"""<[-a-zA-Z0-9]+\s*(\b[-a-zA-Z0-9:_.]+(\s*=\s*("[^<>"]*"|"""  # HTML start
-    r"""'[^<>']*'|[^ \t\n"'`=<>]*))?\s*)*/?>""",  # HTML start tag
+    # HTML start tag.  Every piece of an attribute can match in one way only:
+    # a name is a whole run of name characters, the white space after "=" is
+    # taken completely, and an unquoted value runs up to the next white space
+    # or quote (as in parse_attrs()).  Otherwise a "<" that is not followed
+    # by a ">" needs time exponential in the length of what follows it.
+    r"""<[-a-zA-Z0-9]+\s*(\b[-a-zA-Z0-9:_.]+(?![-a-zA-Z0-9:_.])"""
+    r"""(\s*=\s*(?!\s)("[^<>"]*"|'[^<>']*'|"""
+    r"""[^\s"'`<>]*(?![^\s"'`<>])))?\s*)*/?>""",
     r"</[-a-zA-Z0-9]+\s*>",
     r"(" + r"|".join(r"\b{}\b".format(x) for x in MAGIC_WORDS) + r")",
     r"[{:c}-{:c}]".format(MAGIC_FIRST, MAGIC_LAST),
